@@ -59,6 +59,8 @@ pub struct Item {
     pub ty: String,
     /// N of a top-level `[T; N]` type
     pub declared_len: Option<u64>,
+    /// N of a top-level `[T; N]` type when it is written as the name of another item
+    pub declared_len_name: Option<String>,
     pub value: Val,
 }
 
@@ -303,10 +305,14 @@ pub fn parse_items(src: &str) -> Result<Vec<Item>, String> {
                     }
                 }
                 let mut declared_len = None;
+                let mut declared_len_name = None;
                 let n = ty_toks.len();
                 if n >= 4 && ty_toks[0] == Tok::P('[') && ty_toks[n - 1] == Tok::P(']') {
                     if let (Tok::P(';'), Tok::Int(l)) = (&ty_toks[n - 3], &ty_toks[n - 2]) {
                         declared_len = Some(*l as u64);
+                    }
+                    if let (Tok::P(';'), Tok::Ident(id)) = (&ty_toks[n - 3], &ty_toks[n - 2]) {
+                        declared_len_name = Some(id.clone());
                     }
                 }
                 let ty: String = ty_toks
@@ -326,6 +332,7 @@ pub fn parse_items(src: &str) -> Result<Vec<Item>, String> {
                     kind,
                     ty,
                     declared_len,
+                    declared_len_name,
                     value,
                 });
             }
